@@ -128,6 +128,10 @@ func c05Cases(tier string) []SchedCase {
 		out = append(out, SchedCase{Case: Case{Op: Op{Text: `{t{kidReq{id} ... @defer{name}}}`}, Plan: planOf("t.kidReq", "error"), Yield: true, Cancel: false}, Transport: tr, Name: tr + " failing sibling of a deferred fragment", Bound: &zero})
 		out = append(out, SchedCase{Case: Case{Op: Op{Text: `{ts{req ... @defer{name}}}`}, Plan: planOf("ts[1].req", "error"), Yield: true, Cancel: false}, Transport: tr, Name: tr + " failing list element with a deferred fragment", Bound: &zero})
 	}
+	// an element-level panic (a Go type the generated type switch does not know) in a list
+	// under a worker limit: every slot and every wait-group count is accounted for
+	out = append(out, SchedCase{Case: Case{Op: Op{Text: `{peers{id peer{id}} str}`}, Plan: planOf("peers[0]", "rogue"), Yield: true}, Name: "rogue list element", Bound: &one})
+	out = append(out, SchedCase{Case: Case{Op: Op{Text: `{peers{id}}`}, Plan: planOf("peers", "len3", "peers[0]", "rogue", "peers[1]", "rogue"), Yield: true}, Name: "two rogue list elements of three", Bound: &zero})
 	// two operations in flight on one websocket connection that the SERVER then closes
 	out = append(out, SchedCase{Case: Case{Op: Op{Text: `{t{name}}`}, Yield: true, Cancel: true}, Transport: "ws2", Name: "ws2 {t{name}} | two operations, server-side close", Bound: &one})
 	out = append(out, SchedCase{Case: Case{Op: Op{Text: `subscription{tick{id}}`}, Yield: true, Cancel: true}, Transport: "ws2", Name: "ws2 subscription{tick{id}} | two operations, server-side close", Bound: &zero})
